@@ -87,6 +87,20 @@ engine_a("C09",
     level_text="Seeded search over discovery/handshake histories; after every event every reachable tunnel must carry a CA-signed certificate, its recorded addresses must equal the certificate's in order, every address it serves must be in that certificate, none may be the node's own, and the node actually holding the session keys (found by index cross-match and a decrypt probe) must own that certificate. Evidence, not proof.",
 )
 
+engine_a("C12",
+    scenarios=["C12.mesh"],
+    technique="deterministic whole-overlay simulation with transport duplication and an on-path attacker re-injecting exact copies of captured datagrams (direct and relayed); every delivery is observed (state digest before/after) and each datagram may be acted on at most once",
+    rule="one run = 2-4 node overlay (static/lighthouse/relay) for 10-35 s (thorough: up to 120 s) with high duplication, 40-200 attacker replays (1-3 copies each, from the original or a foreign source address), rehandshakes and bursts; distinct = distinct abstract trace hash; non-trivial = replays were injected, >10 distinct datagrams were acted on and >5 workload packets delivered",
+    level_text="Seeded search over delivery/replay histories: every delivery of an encrypted datagram is observed; a datagram (by content) may change the receiver's state, reach its tun or trigger a non-recv_error reply at most once per node, and every uniquely marked workload packet reaches the destination tun at most once. Goroutine-level races between the window check and update are the engine-B part. Evidence, not proof.",
+)
+
+engine_a("C14",
+    scenarios=["C14.mesh"],
+    technique="deterministic whole-overlay simulation with an on-path attacker forging variants of captured encrypted datagrams (bit flips, truncation/extension, counter/index/type substitution, cross-tunnel splices, peer or foreign source); receiver state digest must be unchanged and nothing delivered or answered",
+    rule="one run = 2-4 node overlay (static/lighthouse/relay; live tunnels carrying data, lighthouse, test, control, relay and close traffic) for 10-35 s (thorough: up to 120 s) with 60-260 forged deliveries; distinct = distinct abstract trace hash; non-trivial = >20 forgeries of >=5 mutation classes were delivered to nodes holding tunnels",
+    level_text="Seeded search over forged-packet histories: for every forged delivery the receiver's full observable state (hostmap shape, per-tunnel remote/roaming, liveness flags, replay window, send counter, relay state, pending handshakes, lighthouse cache, relay usage), its tun output and its outbox (a recv_error to the datagram's source excepted) are compared before/after. Forgeries whose type field became Handshake or RecvError are outside the statement (those two types are unauthenticated by design) and are skipped, not judged. Evidence, not proof.",
+)
+
 NOT_APPLICABLE = {
     "C03": "pure encode/decode round trip over input bytes; no clock, schedule, fault or second party for a simulator to control",
     "C04": "pure function of (certificate to sign, signer); offline CLI; nothing to schedule or fault",
